@@ -153,13 +153,25 @@ func (e *Engine) yield() {
 }
 
 func (e *Engine) deadlock() {
+	e.abort("deadlock", e.describeBlocked())
+}
+
+func (e *Engine) describeBlocked() string {
 	desc := ""
 	for _, g := range e.runq {
 		if !g.finished {
-			desc += fmt.Sprintf("[g%d %s]", g.id, g.why)
+			desc += fmt.Sprintf("[g%d %s", g.id, g.why)
+			n := 0
+			for fr := g.fr; fr != nil && n < 5; fr = fr.caller {
+				if fr.fn != nil {
+					desc += " < " + fr.fn.Name()
+					n++
+				}
+			}
+			desc += "]"
 		}
 	}
-	e.abort("deadlock", desc)
+	return desc
 }
 
 // goexit is called when a goroutine other than g0 finishes normally.
@@ -168,13 +180,7 @@ func (e *Engine) goexit(g *G) {
 	if next == nil {
 		// everyone else is blocked: g0 is among them => deadlock
 		if !e.aborting {
-			desc := ""
-			for _, o := range e.runq {
-				if !o.finished {
-					desc += fmt.Sprintf("[g%d %s]", o.id, o.why)
-				}
-			}
-			e.outcome = Outcome{"deadlock", desc}
+			e.outcome = Outcome{"deadlock", e.describeBlocked()}
 			e.aborting = true
 		}
 		select {
@@ -203,6 +209,83 @@ type Chan struct {
 	sendq  []*sudog
 	recvq  []*sudog
 	elem   types.Type
+	selw   []*selWait // goroutines parked in a select that involves this channel
+}
+
+// selWait is a goroutine parked in a select. Another goroutine may complete one of its
+// cases directly (rendezvous between two selects, or between a select and a plain op).
+type selWait struct {
+	cases  []selCase
+	done   bool
+	chosen int
+	recv   Value
+	ok     bool
+}
+
+type selCase struct {
+	c    *Chan
+	send bool
+	val  Value
+}
+
+// completeSelRecv hands v to a goroutine parked in a select with a receive case on c.
+func (c *Chan) completeSelRecv(v Value) bool {
+	for _, w := range c.selw {
+		if w.done {
+			continue
+		}
+		for i, sc := range w.cases {
+			if sc.c == c && !sc.send {
+				w.done, w.chosen, w.recv, w.ok = true, i, v, true
+				return true
+			}
+		}
+	}
+	return false
+}
+
+// completeSelSend takes the value of a goroutine parked in a select with a send case on c.
+func (c *Chan) completeSelSend() (Value, bool) {
+	for _, w := range c.selw {
+		if w.done {
+			continue
+		}
+		for i, sc := range w.cases {
+			if sc.c == c && sc.send {
+				w.done, w.chosen = true, i
+				return sc.val, true
+			}
+		}
+	}
+	return nil, false
+}
+
+func (c *Chan) hasSelRecv() bool {
+	for _, w := range c.selw {
+		if w.done {
+			continue
+		}
+		for _, sc := range w.cases {
+			if sc.c == c && !sc.send {
+				return true
+			}
+		}
+	}
+	return false
+}
+
+func (c *Chan) hasSelSend() bool {
+	for _, w := range c.selw {
+		if w.done {
+			continue
+		}
+		for _, sc := range w.cases {
+			if sc.c == c && sc.send {
+				return true
+			}
+		}
+	}
+	return false
 }
 
 func (e *Engine) makeChan(t types.Type, n int) *Chan {
@@ -217,6 +300,7 @@ func (e *Engine) chanSnapshot(c *Chan) {
 	old.buf = append([]Value(nil), c.buf...)
 	old.sendq = append([]*sudog(nil), c.sendq...)
 	old.recvq = append([]*sudog(nil), c.recvq...)
+	old.selw = append([]*selWait(nil), c.selw...)
 	e.logUndo(func() { *c = old })
 }
 
@@ -234,6 +318,9 @@ func (e *Engine) chanSend(c *Chan, v Value) {
 		r.val, r.ok, r.done = v, true, true
 		return
 	}
+	if c.completeSelRecv(v) {
+		return
+	}
 	if len(c.buf) < c.cap {
 		c.buf = append(c.buf, v)
 		return
@@ -247,7 +334,7 @@ func (e *Engine) chanSend(c *Chan, v Value) {
 }
 
 func (e *Engine) chanRecvReady(c *Chan) bool {
-	return c != nil && (len(c.buf) > 0 || len(c.sendq) > 0 || c.closed)
+	return c != nil && (len(c.buf) > 0 || len(c.sendq) > 0 || c.closed || c.hasSelSend())
 }
 
 // chanRecvNow receives assuming chanRecvReady(c).
@@ -269,6 +356,9 @@ func (e *Engine) chanRecvNow(c *Chan) (Value, bool) {
 		c.sendq = c.sendq[1:]
 		sd.done = true
 		return sd.val, true
+	}
+	if v, ok := c.completeSelSend(); ok {
+		return v, true
 	}
 	return zero(c.elem), false
 }
@@ -314,15 +404,10 @@ func (e *Engine) goPanicStr(msg string) {
 
 // doSelect implements ssa.Select.
 func (e *Engine) doSelect(fr *frame, instr *ssa.Select) Value {
-	type scase struct {
-		c    *Chan
-		send bool
-		val  Value
-	}
-	cases := make([]scase, len(instr.States))
+	cases := make([]selCase, len(instr.States))
 	for i, st := range instr.States {
 		c, _ := fr.get(st.Chan).(*Chan)
-		cases[i] = scase{c: c, send: st.Dir == types.SendOnly}
+		cases[i] = selCase{c: c, send: st.Dir == types.SendOnly}
 		if st.Send != nil {
 			cases[i].val = fr.get(st.Send)
 		}
@@ -334,7 +419,7 @@ func (e *Engine) doSelect(fr *frame, instr *ssa.Select) Value {
 				continue
 			}
 			if sc.send {
-				if sc.c.closed || len(sc.c.recvq) > 0 || len(sc.c.buf) < sc.c.cap {
+				if sc.c.closed || len(sc.c.recvq) > 0 || len(sc.c.buf) < sc.c.cap || sc.c.hasSelRecv() {
 					r = append(r, i)
 				}
 			} else if e.chanRecvReady(sc.c) {
@@ -345,25 +430,48 @@ func (e *Engine) doSelect(fr *frame, instr *ssa.Select) Value {
 	}
 	rdy := readyIdx()
 	chosen := -1
-	if len(rdy) == 0 {
-		if !instr.Blocking {
-			chosen = -1
+	var recv Value
+	recvOk := false
+	completed := false
+	if len(rdy) == 0 && instr.Blocking {
+		w := &selWait{cases: cases}
+		for _, sc := range cases {
+			if sc.c != nil {
+				e.chanSnapshot(sc.c)
+				sc.c.selw = append(sc.c.selw, w)
+			}
+		}
+		e.park("select", func() bool { return w.done || len(readyIdx()) > 0 })
+		for _, sc := range cases {
+			if sc.c != nil {
+				e.chanSnapshot(sc.c)
+				for k, x := range sc.c.selw {
+					if x == w {
+						sc.c.selw = append(sc.c.selw[:k:k], sc.c.selw[k+1:]...)
+						break
+					}
+				}
+			}
+		}
+		if w.done {
+			completed = true
+			chosen = w.chosen
+			recv, recvOk = w.recv, w.ok
 		} else {
-			e.park("select", func() bool { return len(readyIdx()) > 0 })
 			rdy = readyIdx()
 		}
 	}
-	if len(rdy) > 0 {
-		chosen = rdy[e.choose(len(rdy), "select")]
-	}
-	var recv Value
-	recvOk := false
-	if chosen >= 0 {
-		sc := cases[chosen]
-		if sc.send {
-			e.chanSend(sc.c, sc.val)
-		} else {
-			recv, recvOk = e.chanRecvNow(sc.c)
+	if !completed {
+		if len(rdy) > 0 {
+			chosen = rdy[e.choose(len(rdy), "select")]
+		}
+		if chosen >= 0 {
+			sc := cases[chosen]
+			if sc.send {
+				e.chanSend(sc.c, sc.val)
+			} else {
+				recv, recvOk = e.chanRecvNow(sc.c)
+			}
 		}
 	}
 	r := Tuple{intC(int64(chosen)), boolV(recvOk)}
